@@ -126,8 +126,8 @@ Spans of submodels differ:
             span=span, dtype=dtype, default_value=default_value, **initial_values
         )
 
-        self.add_attribute('endogenous', self.ENDOGENOUS)
-        self.add_attribute('check', self.CHECK)
+        self.add_attribute('endogenous', list(self.ENDOGENOUS))
+        self.add_attribute('check', list(self.CHECK))
 
     @property
     def sizes(self) -> Dict[Hashable, int]:
